@@ -69,20 +69,21 @@ def keptShape (shape : List Nat) (axisFirst : Bool) : List Nat :=
   if axisFirst then shape.headD 1 :: List.replicate (shape.length - 1) 1
   else List.replicate (shape.length - 1) 1 ++ [shape.getLastD 1]
 
-/-- fold the values of every slice with `f` (slices are non-empty for non-empty tensors) -/
-def reduceSlices (t : T FV) (axisFirst : Bool) (f : FV → FV → FV) : T FV :=
-  let k := keptDim t.shape axisFirst
-  let init : Array (Option FV) := Array.replicate k none
-  let acc := (List.range t.data.size).foldl (fun (a : Array (Option FV)) n =>
-    let key := keyAt t.shape axisFirst n
-    let v := t.get n
-    a.setIfInBounds key (match a.getD key none with | none => some v | some w => some (f w v))) init
-  ⟨keptShape t.shape axisFirst, acc.map fun o => o.getD (.fin 0)⟩
+/-- the values of slice `k` (all positions whose kept-axis key is `k`), in row-major order -/
+def sliceVals (t : T FV) (axisFirst : Bool) (k : Nat) : List FV :=
+  (List.range t.data.size).filterMap fun n =>
+    if keyAt t.shape axisFirst n = k then some (t.get n) else none
 
-def reduceAll (t : T FV) (f : FV → FV → FV) : FV :=
-  match t.data.toList with
+def foldSlice (f : FV → FV → FV) : List FV → FV
   | [] => .fin 0
   | v :: vs => vs.foldl f v
+
+/-- fold the values of every slice with `f`; keepdim result.  By construction the result at
+key `k` is a function of the values of slice `k` only (locality, C03). -/
+def reduceSlices (t : T FV) (axisFirst : Bool) (f : FV → FV → FV) : T FV :=
+  T.ofFn (keptShape t.shape axisFirst) fun k => foldSlice f (sliceVals t axisFirst k)
+
+def reduceAll (t : T FV) (f : FV → FV → FV) : FV := foldSlice f t.data.toList
 
 /-! ### optimizers -/
 
